@@ -17,7 +17,7 @@ from typing import Any, Dict, List, Tuple
 from mcx.core import Ctx, HarnessError, Part, VERIF, digest, pmap
 from odxmodel import harness, refodx, space
 from odxmodel.harness import jval, show, unjval
-from checks.codec_common import library_for, minimize_keys, tagkey
+from checks.codec_common import make_contextualize, library_for, minimize_keys, tagkey
 
 PROPERTY = "C02"
 LEVEL = "model_checking"
@@ -100,6 +100,9 @@ def units_for(ctx: Ctx) -> List[Tuple[str, List[Dict[str, Any]]]]:
     return space.layer_a_units(ctx.quick) + space.layer_b_units(ctx.quick) + space.layer_c_units(ctx.quick) + space.layer_c_units(ctx.quick, overlap=True)
 
 
+contextualize = make_contextualize(PROPERTY, lambda quick: units_for(__import__("types").SimpleNamespace(quick=quick)))
+
+
 def run(ctx: Ctx) -> None:
     bk = backend()
     units = units_for(ctx)
@@ -109,7 +112,7 @@ def run(ctx: Ctx) -> None:
                 "non-trivial = distinct (program tags, reference PDU)")
     ctx.assumptions = ["reference interpreter odxmodel/refodx.py encodes ISO 22901-1 7.3.6 as listed in DESIGN.md appendix C",
                        "values the reference rejects are C04's business; constructs outside the envelope are skipped and counted (dont_care)"]
-    pmap(ctx, unit_fn, units)
+    pmap(ctx, unit_fn, units, isolate=True)
     minimize_keys(ctx)
     ctx.counts["traces_validated_against_impl"] = ctx.counts.get("compared", 0)
     ctx.sample({"program": "i_Ux_l_12_3_a", "values": {"v": 2748}, "pdu": "e055"})
@@ -151,6 +154,16 @@ def replay(case: Any) -> List[Tuple[str, str]]:
         if not line:
             raise HarnessError("replay subprocess failed: " + r.stderr[-800:])
         return [tuple(x) for x in json.loads(line[-1][len("SUBRESULT "):])]
+    if case.get("unit_replay"):
+        # the case needs the other descriptions of its unit (state shared between objects): run the whole unit
+        ur = case["unit_replay"]
+        units = units_for(__import__("types").SimpleNamespace(quick=ur["tier"] == "quick"))
+        pid = case["program"]["pid"]
+        unit = next((u for u in ([units[ur["index"]]] if ur["index"] < len(units) else []) + units if any(q["pid"] == pid for q in u[1])), None)
+        if unit is None:
+            return []
+        part = unit_fn(unit)
+        return [(k, v[2]) for k, v in part.viol.items()]
     p = case["program"]
     prog = {"pid": p["pid"], "dops": p["dops"], "params": p["params"], "kind": p.get("kind", "REQUEST"),
             "request": unjval(p.get("request")), "tags": p["tags"], "library": p.get("library", False), "assign": [unjval(case["values"])] if case["values"] is not None else []}
